@@ -681,6 +681,96 @@ func checkC15(c *Ctx) *report.Result {
 		r.Ob("V-window", nbad == 0, "window hit test and window coordinates over WX 7-166 x WY", firstPos(c, m.Win), strings.Join(bad, "; "))
 		r.Instances["V-window"] += n
 	}
+	// ---------------- V-scan: every OAM entry is line-tested once per line, for that line
+	r.Rule("V-scan", "OAM scan: during the 20 mode-2 ticks of every line 0-143 (also the first line after switch-on) each of the 40 OAM entries has its line test stored exactly once, computed from its own Y byte (OAM byte 4k)")
+	{
+		pm := c.ppuModel()
+		if len(pm.Errors) > 0 {
+			r.Fail("unresolved", "V-scan", "PPU model", "", strings.Join(pm.Errors, "; "))
+		} else {
+			type lineKey struct {
+				L  int64
+				FL bool
+			}
+			count := map[lineKey]map[int64]int{}
+			var bad []string
+			nst := 0
+			for _, s0 := range ppuInvariantStates() {
+				if docMode(s0.T) != 2 || s0.T/114 > 143 {
+					continue
+				}
+				nst++
+				st := it.StateOn(c.W.Generic)
+				setI := func(path string, v int64) {
+					w, sg := ai.TypeShape(ai.LeafTypeAt(pm.PPU.T, path))
+					st.SetCell(pm.PPU, path, ai.NewConstInt(w, sg, v))
+				}
+				setI(".ticks", s0.T)
+				setI(".mode", s0.Mode)
+				setI(".ly", s0.LY)
+				st.SetCell(pm.PPU, ".firstLine", ai.NewConstBool(s0.FirstLine))
+				st.SetCell(pm.PPU, pm.Enabled, ai.NewConstBool(true))
+				var ks, oamIdx []int64
+				it.Hooks = ai.Hooks{
+					Store: func(_ *ai.State, _ ssa.Instruction, p *ai.Ptr, keys []ai.CellKey, _ ai.Value, _ bool) {
+						for _, k := range keys {
+							if k.Obj == pm.PPU.ID && strings.HasPrefix(k.Path, ".spriteOverlaps[") {
+								var idx int64 = -1
+								fmt.Sscanf(strings.TrimPrefix(k.Path, ".spriteOverlaps["), "%d", &idx)
+								if strings.Contains(k.Path, "*") {
+									idx = -1
+								}
+								ks = append(ks, idx)
+							}
+						}
+					},
+					Elem: func(_ *ai.State, _ ssa.Instruction, o *ai.Object, path string, idx *ai.Int, _ int64) {
+						if o == pm.OAM && idx != nil {
+							if cv, isc := constOf(idx); isc {
+								oamIdx = append(oamIdx, cv)
+							} else {
+								oamIdx = append(oamIdx, -1)
+							}
+						}
+					},
+				}
+				_, post := it.CallFunction(st, pm.StepFn, []ai.Value{ptrTo(pm.PPU)}, nil)
+				it.Hooks = ai.Hooks{}
+				key := lineKey{s0.T / 114, s0.FirstLine}
+				if count[key] == nil {
+					count[key] = map[int64]int{}
+				}
+				okStep := post != nil && len(ks) == len(oamIdx)
+				for i, k := range ks {
+					count[key][k]++
+					if okStep && oamIdx[i] != 4*k {
+						okStep = false
+					}
+				}
+				if !okStep && len(bad) < 4 {
+					bad = append(bad, fmt.Sprintf("tick %d (first line %v): line tests stored for entries %v from OAM bytes %v (documented: byte 4k for entry k)", s0.T, s0.FirstLine, ks, oamIdx))
+				}
+			}
+			lines := 0
+			for key, m := range count {
+				lines++
+				var miss []int64
+				for k := int64(0); k < 40; k++ {
+					if m[k] != 1 {
+						miss = append(miss, k)
+					}
+				}
+				if (len(miss) > 0 || len(m) != 40) && len(bad) < 8 {
+					bad = append(bad, fmt.Sprintf("line %d (first line after switch-on: %v): entries not line-tested exactly once: %v", key.L, key.FL, miss))
+				}
+			}
+			sort.Strings(bad)
+			r.Ob("V-scan", len(bad) == 0 && lines == 145, "every OAM entry line-tested once per line", firstPos(c, pm.StepFn), fmt.Sprintf("%d lines (144 + the first line after switch-on) over %d mode-2 ticks; %s", lines, nst, strings.Join(bad, "; ")))
+			r.Instances["V-scan"] += nst
+		}
+	}
+	r.Rule("V-sched", "lines are drawn on the documented schedule (rules L-inv / L-switch of C13 re-stated): every visible line goes through its OAM scan and pixel transfer ticks")
+	adopt(r, c.sibling("C13"), map[string]string{"L-inv": "V-sched", "L-switch": "V-sched", "L-own": "V-sched"}, "a line whose scan or transfer ticks are skipped is drawn from stale data")
 	return r
 }
 
